@@ -678,3 +678,35 @@ mod test {
         assert!(!server.inflight(&tid));
     }
 }
+
+#[cfg(mainline_verif)]
+#[allow(missing_docs)]
+impl KrpcSocket {
+    /// Harness constructor (binds the simulated socket prepared with `verif::prepare_bind`).
+    pub fn verif_new(config: &Config) -> Result<Self, std::io::Error> {
+        Self::new(config)
+    }
+    /// The virtual address of the simulated socket.
+    pub fn verif_sim_addr(&self) -> SocketAddrV4 {
+        self.socket.sim_addr()
+    }
+    /// (next_tid, [(tid, to, sent_at_ns)], vec capacity, request timeout in ns)
+    pub fn verif_inflight(&self) -> (u32, Vec<(u32, SocketAddrV4, u64)>, usize, u64) {
+        (
+            self.inflight_requests.next_tid,
+            self.inflight_requests
+                .requests
+                .iter()
+                .map(|r| (r.tid, r.to, r.sent_at.as_nanos()))
+                .collect(),
+            self.inflight_requests.requests.capacity(),
+            self.inflight_requests.request_timeout().as_nanos() as u64,
+        )
+    }
+    pub fn verif_set_next_tid(&mut self, tid: u32) {
+        self.inflight_requests.next_tid = tid;
+    }
+    pub fn verif_server_mode(&self) -> bool {
+        self.server_mode
+    }
+}
